@@ -156,9 +156,12 @@ type concPair struct {
 	ctx  ldcontext.Context
 }
 
-func evalPair(ev evaluation.Evaluator, p concPair) string {
+func evalPair(ev evaluation.Evaluator, p concPair, rec bool) string {
 	events := []WEvent{}
 	ok := true
+	if !rec {
+		return canon([]any{dumpResult(ev.Evaluate(p.flag, p.ctx, nil)), events, ok})
+	}
 	res := ev.Evaluate(p.flag, p.ctx, func(e evaluation.PrerequisiteFlagEvent) {
 		w := WEvent{Target: e.TargetFlagKey, Result: dumpResult(e.PrerequisiteResult), Excl: e.ExcludeFromSummaries}
 		if e.PrerequisiteFlag != nil {
@@ -186,7 +189,7 @@ func concWorkerMain(args []string) {
 	evals, distinct := 0, 0
 	for round := 0; round < rounds; round++ {
 		r := base.fork()
-		streams := []string{"rollouts", "bigseg", "wellformed", "segments", "prereqs", "targets", "manykinds", "targets"}
+		streams := []string{"rollouts", "bigseg", "wellformed", "segments", "prereqs", "targets", "manykinds", "targets", "malformed", "graphs", "bucketdense"}
 		name := pick(r, streams)
 		if round == 0 {
 			name = streams[int(proc)%len(streams)] // the cold round of this process
@@ -199,6 +202,8 @@ func concWorkerMain(args []string) {
 		// Two independent builds of the same configuration: the sequential baseline runs on one,
 		// the goroutines on the other, so that nothing the library might cache lazily on shared
 		// values is already warm when the concurrent phase starts.
+		// which options are stated and whether calls carry a recorder varies per round
+		withLogger, withSecOpt, withRec := !r.chance(1, 4), c.Opts.Sec || r.bool(), !r.chance(1, 4)
 		mk := func() (evaluation.Evaluator, []concPair, *traffic) {
 			st := buildStore(&c.Store)
 			tr := newTraffic()
@@ -207,7 +212,12 @@ func concWorkerMain(args []string) {
 			if c.BS != nil {
 				options = append(options, evaluation.EvaluatorOptionBigSegmentProvider(mkPureBS(c.BS, tr)))
 			}
-			options = append(options, evaluation.EvaluatorOptionErrorLogger(&lockedLogger{tr}), evaluation.EvaluatorOptionEnableSecondaryKey(c.Opts.Sec))
+			if withLogger {
+				options = append(options, evaluation.EvaluatorOptionErrorLogger(&lockedLogger{tr}))
+			}
+			if withSecOpt {
+				options = append(options, evaluation.EvaluatorOptionEnableSecondaryKey(c.Opts.Sec))
+			}
 			e := evaluation.NewEvaluatorWithOptions(ps, options...)
 			flags := []*ldmodel.FeatureFlag{c.Flag.build()}
 			keys := []string{}
@@ -266,7 +276,7 @@ func concWorkerMain(args []string) {
 				<-start
 				for it := 0; it < 60; it++ {
 					i := gr.intn(len(pairs))
-					got := evalPair(ev, pairs[i])
+					got := evalPair(ev, pairs[i], withRec)
 					seenConc[gi] = append(seenConc[gi], obsAt{i, got})
 				}
 			}()
@@ -277,7 +287,7 @@ func concWorkerMain(args []string) {
 		baseTraffic := make([]map[string]int, len(pairs))
 		for i, p := range pairsSeq {
 			before := trSeq.snapshot()
-			baseline[i] = evalPair(evSeq, p)
+			baseline[i] = evalPair(evSeq, p, withRec)
 			baseTraffic[i] = trafficDiff(trSeq.snapshot(), before)
 		}
 		seen := map[string]bool{}
